@@ -111,8 +111,19 @@ func (f *flattener) applies(obj *graphql.Object, fragment *graphql.Fragment) (bo
 // selections of each fragment, but does not descend down recursively into those
 // selections.
 func (f *flattener) flattenFragments(selectionSet *graphql.SelectionSet, typ *graphql.Object, target *[]*graphql.Selection) error {
-	// Start with the non-fragment selections.
-	*target = append(*target, selectionSet.Selections...)
+	// Start with the non-fragment selections. A selection excluded by its own
+	// @skip/@include directives is left out here, before selections are
+	// grouped by alias: it must not hide, or lend its sub-selections to,
+	// another selection with the same alias.
+	for _, selection := range selectionSet.Selections {
+		ok, err := graphql.ShouldIncludeNode(selection.Directives)
+		if err != nil {
+			return oops.Wrapf(err, "applying directive for selection %s", selection.Alias)
+		}
+		if ok {
+			*target = append(*target, selection)
+		}
+	}
 
 	// Descend into fragments matching the current type.
 	for _, fragment := range selectionSet.Fragments {
